@@ -93,6 +93,17 @@ func execPlan(t *testing.T, plan *Plan, keepLog bool) (*RunResult, []string) {
 	case bo = <-out:
 	case <-time.After(30 * time.Second): // real time: a run that does not end is a harness problem
 		bo = bubbleOut{res: &RunResult{Seed: plan.Seed, Prop: plan.Prop, World: plan.World, Panic: "HANG: run did not finish within 30s wall"}}
+		// ... unless the system under test is the queue alone (no application callbacks, no
+		// transport, nothing of the harness takes a lock there) and a goroutine of the bubble sits in
+		// Mutex.Lock inside rpc_queue.go: a lock that is never released is the queue's doing
+		if plan.World == "queue" {
+			if fn := mutexBlockedIn("rpc_queue.go"); fn != "" {
+				bo.res.Panic = ""
+				bo.res.Violations = []Violation{{Property: "C15", Invariant: "progress", Signature: "C15/progress/mutex-never-released/" + fn,
+					Detail: "the run did not finish: a goroutine has been blocked in sync.Mutex.Lock called from " + fn + " (rpc_queue.go) for 30 s of real time; the queue mutex is held by nobody who will release it"}}
+				bo.res.Plan = plan
+			}
+		}
 	}
 	if def.post != nil && bo.res.Panic == "" {
 		def.post(bo.res, bo.post)
@@ -248,4 +259,31 @@ func onlyHarnessFrames(g string) bool {
 		}
 	}
 	return true
+}
+
+
+// mutexBlockedIn: name of the first function of the given source file from which a goroutine is
+// currently blocked in sync.(*Mutex).Lock ("" if none).
+func mutexBlockedIn(file string) string {
+	buf := make([]byte, 4<<20)
+	buf = buf[:runtime.Stack(buf, true)]
+	for _, g := range strings.Split(string(buf), "\n\n") {
+		if !strings.Contains(g, "sync.(*Mutex).Lock") {
+			continue
+		}
+		lines := strings.Split(g, "\n")
+		for i := 0; i+1 < len(lines); i++ {
+			if strings.Contains(lines[i+1], "/"+file+":") {
+				fn := lines[i]
+				if k := strings.LastIndex(fn, "("); k > 0 {
+					fn = fn[:k]
+				}
+				if k := strings.LastIndex(fn, "."); k > 0 {
+					fn = fn[k+1:]
+				}
+				return fn
+			}
+		}
+	}
+	return ""
 }
